@@ -299,16 +299,22 @@ class Note(object):
             if x in ["#", "b"] and name != "":
                 # an accidental; a leading 'b' is the note B itself
                 name += x
-            elif x in ["a", "b", "c", "d", "e", "f", "g"]:
+            elif x in ["a", "b", "c", "d", "e", "f", "g"] and name == "":
                 name = str.upper(x)
                 octave = 3
-            elif x in ["A", "B", "C", "D", "E", "F", "G"]:
+            elif x in ["A", "B", "C", "D", "E", "F", "G"] and name == "":
                 name = x
                 octave = 2
-            elif x == ",":
+            elif x == "," and name != "":
                 octave -= 1
-            elif x == "'":
+            elif x == "'" and name != "":
                 octave += 1
+            else:
+                # anything else is not Helmholtz notation: a second note
+                # letter, a mark before the letter, a foreign character
+                raise NoteFormatError("Invalid Helmholtz shorthand: %r" % shorthand)
+        if name == "":
+            raise NoteFormatError("Invalid Helmholtz shorthand: %r" % shorthand)
         return self.set_note(name, octave, {})
 
     def __int__(self):
